@@ -241,12 +241,6 @@ def expected(case):
     u, p, h = creds(case)
     if case.get("via") == "driver" and case.get("auth_bypass"):
         return None
-    if fl == "ssh" and d.get("fatal") is not None:
-        if not any(n in B(d["fatal"]).lower() for n in ORACLE_FATAL):
-            return None          # e.g. "Connection refused": a connection error, not an authentication failure (C08)
-        return "fail-now" if case["stack"] == "sync" else None
-    if d.get("needs_kick", 0) and case.get("on_empty", "stall") != "empty":
-        return None
     if case.get("err_at"):
         # transient connection errors: only the sync telnet loop survives them (it answers with a return, which a device at
         # its password prompt takes as one more wrong password); what the property still fixes is the rejecting server that
@@ -256,6 +250,12 @@ def expected(case):
         if B(case["creds"]["username"]) == B(d.get("username", "admin")) and B(case["creds"]["password"]) == B(d.get("password", "s3cret")):
             return None
         return "fail" if d.get("after_max", "close") == "reprompt" else None
+    if fl == "ssh" and d.get("fatal") is not None:
+        if not any(n in B(d["fatal"]).lower() for n in ORACLE_FATAL):
+            return None          # e.g. "Connection refused": a connection error, not an authentication failure (C08)
+        return "fail-now" if case["stack"] == "sync" else None
+    if d.get("needs_kick", 0) and case.get("on_empty", "stall") != "empty":
+        return None
     dev_u, dev_p, dev_h = B(d.get("username", "admin")), B(d.get("password", "s3cret")), d.get("passphrase")
     if fl == "telnet":
         if u == dev_u and p == dev_p:
@@ -371,8 +371,26 @@ def kick_match(case, res):
     return None
 
 
-def matcher(case, res, pats):
-    return finding_match(case, res, pats) or kick_match(case, res)
+FID_ERR = "F24"    # a transient connection error is answered with a return that the device takes as an empty line
+
+
+def connerr_match(case, res, viol):
+    """narrow predicate of F24: sync telnet; read() raised a (transient) ScrapliConnectionError, the return written in answer
+    reached the device while it was waiting for the username or the password (so it counted as an empty line), and the only
+    complaint is a credential typed at the other prompt afterwards (counts and outcome are as the property demands)"""
+    if not (case["flavour"] == "telnet" and case["stack"] == "sync" and viol):
+        return None
+    if not all("written while the device was in state" in v for v in viol):
+        return None
+    err_reads = {i for i, ev in enumerate(res["tape"], 1) if ev[0] == "E"}
+    for (n, w), (st, w2) in zip(res["writes"], res["wlog"]):
+        if n in err_reads and w == b"\n" and st in ("pass", "user"):
+            return FID_ERR
+    return None
+
+
+def matcher(case, res, pats, viol=()):
+    return finding_match(case, res, pats) or kick_match(case, res) or connerr_match(case, res, list(viol))
 
 
 # ------------------------------------------------------------------ generators
@@ -465,6 +483,47 @@ def exhaustive_cases(tier):
     return out
 
 
+def connerr_cases(tier, divisor, rng):
+    """rejecting servers that keep prompting (username+password rounds, or password only) x a transient connection error
+    from the transport read at every read number, singly and in pairs (sync telnet: the loop that survives such errors)"""
+    bases = []
+    for reject_to in ("user", "pass"):
+        for up, pp, rnl in (("login: ", "Password: ", True), ("Username:", "password:", False)):
+            for bad in ("password", "username"):
+                if bad == "username" and reject_to == "pass":
+                    continue
+                c = base_case("telnet", "sync", user_prompt=up, pass_prompt=pp, max_tries=3, after_max="reprompt",
+                              reject_to=reject_to, reprompt_nl=rnl, reject_msg="Login incorrect")
+                c["creds"][bad] = "wr0ng"
+                c["budget"] = 0
+                bases.append(c)
+    out = []
+    for b in bases:
+        cutspecs = [["all"], ["list", [7, 3, 11, 2, 5, 9, 4, 40, 6, 3, 8, 2, 40]]]
+        if tier == "thorough":
+            cutspecs.append(["one"])
+        for cs in cutspecs:
+            c0 = with_cuts(b, cs)
+            n = len(run_real_sync(c0, divisor)["tape"])
+            singles = list(range(1, n + 2))
+            if n > 40:
+                singles = sorted(set(rng.sample(singles, 40)) | {1, 2, n, n + 1})
+            for i in singles:
+                c = json.loads(json.dumps(c0)); c["err_at"] = [i]
+                out.append(c)
+            m = n + 3 if n <= 14 else 0
+            pairs = list(itertools.combinations(range(1, m), 2)) if m else \
+                [tuple(sorted(rng.sample(range(1, n + 3), 2))) for _ in range(60 if tier == "quick" else 400)]
+            for i, j in pairs:
+                c = json.loads(json.dumps(c0)); c["err_at"] = [i, j]
+                out.append(c)
+            # an error in every round: what lets a loop that starts over after an error go on for ever
+            for step in (2, 3, 4):
+                c = json.loads(json.dumps(c0)); c["err_at"] = list(range(step, 12 * step, step))
+                out.append(c)
+    return out
+
+
 def rand_cuts(rng, case):
     n = stream_len_estimate(case) + 30
     r = rng.random()
@@ -525,6 +584,8 @@ def gen_random(rng, stream):
         case["dts"] = [rng.choice([0, 1, 1, 1, 2, 3]) for _ in range(rng.randint(0, 6))]
         case["budget"] = len(case["dts"]) + rng.choice([10, 14])   # enough empty reads for every needed kick to come
     case["eof"] = rng.choice(["raise", "empty"]) if flavour == "telnet" else "raise"
+    if rng.random() < 0.15:
+        case["err_at"] = sorted(rng.sample(range(1, 30), rng.choice([1, 1, 2, 3])))
     return case
 
 
@@ -655,6 +716,8 @@ def run(tier, seed):
         cases.append(c); streams.append("driver")
     for c in exhaustive_cases(tier):
         cases.append(c); streams.append("exhaustive")
+    for c in connerr_cases(tier, divisor, ck.rng):
+        cases.append(c); streams.append("connerr")
     nrand = 1500 if tier == "quick" else 30000
     for i in range(nrand):
         st = "clean" if i % 10 < 6 else ("prefixy" if i % 10 < 9 else "outdomain")
@@ -672,10 +735,10 @@ def run(tier, seed):
         mout = None
     # 6 known finding: replay the stored witness
     for f in ck.findings:
-        if f["id"] in (FID, FID_KICK) and f.get("status") == "open":
+        if f["id"] in (FID, FID_KICK, FID_ERR) and f.get("status") == "open":
             wc = f["witness"]["case"]
             r = (run_real_sync(wc, divisor) if wc["stack"] == "sync" else asyncio.run(run_real_async(wc, divisor)))
-            if oracle(wc, r) and matcher(wc, r, pats) == f["id"]:
+            if oracle(wc, r) and matcher(wc, r, pats, oracle(wc, r)) == f["id"]:
                 ck.known_finding(f["id"], f["what"])
     # 7 oracle + correspondence
     adv = adv_dis = 0
@@ -691,6 +754,7 @@ def run(tier, seed):
                     tags=(f"{case['flavour']}-{case['stack']}", f"stream={stream}", f"cuts={case['cuts'][0]}", f"expect={kind}",
                           f"outcome={res['outcome'].split(':')[0]}", f"reads={min(len(res['tape']) // 10 * 10, 100)}+",
                           "empty-reads" if any(e[0] == "c" and not e[1] for e in res["tape"]) else "no-empty-reads",
+                          f"conn-errors={min(sum(1 for e in res['tape'] if e[0] == 'E'), 3)}",
                           f"via={case.get('via')}"))
             viol = oracle(case, res)
             if viol:
@@ -698,7 +762,7 @@ def run(tier, seed):
                        "reads": [hexs(e[1]) if e[0] == "c" else "E" for e in res["tape"]],
                        "wlog": [[st, S(w)] for st, w in res["wlog"]]}
                 ck.violation(rec, f"{case['flavour']} {case['stack']} login: " + "; ".join(viol),
-                             lambda rec_, c=case, r=res: matcher(c, r, pats))
+                             lambda rec_, c=case, r=res, v=viol: matcher(c, r, pats, v))
         else:
             adv += 1
             outcomes[res["outcome"].split(":")[0]] = outcomes.get(res["outcome"].split(":")[0], 0) + 1
